@@ -23,9 +23,9 @@ def cases(tier, seed):
     bat = list(common.batch_scope(lvl))
     buf = list(common.buffer_scope(lvl))
     if tier != "thorough":
-        plan, con, bat, buf = plan[::12], con[::16], bat[::10], buf[::40]
+        plan, con, bat, buf = common.thin(plan, 12), common.thin(con, 16), common.thin(bat, 10), common.thin(buf, 40)
     else:
-        plan, con, bat, buf = plan[::2], con[::3], bat[::2], buf[::5]
+        plan, con, bat, buf = common.thin(plan, 2), common.thin(con, 3), common.thin(bat, 2), common.thin(buf, 5)
     out = common.add_algs(plan + con + buf,
                           lambda c: common.shipped(c, lvl, "diag", False))
     out += common.add_algs(bat, lambda c: common.batch_algs(c, lvl)[:4])
